@@ -1372,3 +1372,650 @@ Proof.
     contradiction.
   - split; vm_compute; reflexivity.
 Qed.
+
+(* ================================================================== direct-current electrode pairs *)
+(* What survives for electrodes is weaker than [inv]: the two entities need not read the same metadata (a free metadata edit is
+   stored for the edited side only — finding dc-shared-dict-partner-not-stored), but the LINK does: whatever either electrode
+   reads, and whatever is stored for either, names both. *)
+Definition dgood (ua ub : N) (d : dict) : Prop := dget KA d = Some (VU ua) /\ dget KB d = Some (VU ub).
+Definition fgood (ua ub : N) (fd : fdict) : Prop := dget KA fd = Some (FU ua) /\ dget KB fd = Some (FU ub).
+
+Lemma good_expand h ua ub d : dgood ua ub d -> fgood ua ub (expand h d).
+Proof. intros [A B]. split; rewrite expand_dget; [rewrite A | rewrite B]; reflexivity. Qed.
+
+Lemma expand_good h ua ub d : fgood ua ub (expand h d) -> dgood ua ub d.
+Proof.
+  intros [A B]. rewrite expand_dget in A, B. split.
+  - destruct (dget KA d) as [v|]; simpl in A; [|discriminate]. inversion A as [E]. apply expand_val_FU in E. subst. reflexivity.
+  - destruct (dget KB d) as [v|]; simpl in B; [|discriminate]. inversion B as [E]. apply expand_val_FU in E. subst. reflexivity.
+Qed.
+
+Definition dnames (s : st) (ua ub : N) (e : ent) : Prop :=
+  (exists fd, fget (wsp e) (uid e) (file s) = Some fd /\ fgood ua ub fd)
+  /\ (forall l, md e = Some l -> (l < next s)%N /\ dgood ua ub (hget l (heap s))).
+
+Definition dinv (s : st) (w : bool) (ua ub : N) : Prop :=
+  exists ea eb,
+    get_ent w ua (ents s) = Some ea /\ get_ent w ub (ents s) = Some eb /\ ua <> ub
+    /\ fam ea = FDC /\ fam eb = FDC /\ rol ea = RA /\ rol eb = RB
+    /\ dnames s ua ub ea /\ dnames s ua ub eb.
+
+Definition upd (new old : dict) : dict := fold_left (fun acc kv => dset (fst kv) (snd kv) acc) new old.
+
+Lemma upd_other k new : forall old, ~ In k (map fst new) -> dget k (upd new old) = dget k old.
+Proof.
+  induction new as [|[k' v] r IH]; intros old Hn; simpl; [reflexivity|].
+  unfold upd in *. simpl. rewrite IH by (intros H; apply Hn; right; exact H).
+  apply dget_dset_other. intros E. apply Hn. left. simpl. symmetry. exact E.
+Qed.
+
+Lemma upd_same k x new : forall old, In k (map fst new) -> (forall v, In (k, v) new -> v = x) -> dget k (upd new old) = Some x.
+Proof.
+  induction new as [|[k' v] r IH]; intros old Hin Hall; simpl in *; [contradiction|].
+  unfold upd in *. simpl.
+  destruct (in_dec Nat.eq_dec k (map fst r)) as [Hr|Hr].
+  - apply IH; [exact Hr | intros v0 Hv0; apply Hall; right; exact Hv0].
+  - fold (upd r (dset k' v old)). rewrite upd_other by exact Hr.
+    destruct Hin as [E|E]; [|contradiction]. subst k'. rewrite dget_dset_same. f_equal. apply Hall. left. reflexivity.
+Qed.
+
+(* the electrode metadata setter applied to entity e with the dict object l *)
+Lemma dc_assign_spec s e l :
+  get_ent (wsp e) (uid e) (ents s) = Some e ->
+  let l' := match md e with Some l0 => l0 | None => l end in
+  let dn := match md e with Some l0 => upd (hget l (heap s)) (hget l0 (heap s)) | None => hget l (heap s) end in
+  let s' := dc_assign s e l in
+  get_ent (wsp e) (uid e) (ents s') = Some (with_md e (Some l'))
+  /\ hget l' (heap s') = dn
+  /\ (forall l1, l1 <> l' -> hget l1 (heap s') = hget l1 (heap s))
+  /\ wheap s' = wheap s /\ next s' = next s
+  /\ fget (wsp e) (uid e) (file s') = Some (expand (wheap s) dn)
+  /\ (forall w u, (wsp e <> w \/ uid e <> u) -> get_ent w u (ents s') = get_ent w u (ents s) /\ fget w u (file s') = fget w u (file s)).
+Proof.
+  intros G. unfold dc_assign. destruct (md e) as [l0|] eqn:Em; cbv zeta.
+  - assert (Ee : with_md e (Some l0) = e) by (destruct e; simpl in *; subst; reflexivity). rewrite Ee.
+    split; [exact G|]. split; [simpl; apply hget_hset_same|]. split; [intros l1 Hl1; simpl; apply hget_hset_other; exact Hl1|].
+    split; [reflexivity|]. split; [reflexivity|]. split.
+    + unfold store, read. simpl. rewrite hget_hset_same. apply fget_fput_same.
+    + intros w u Hne. split; [reflexivity|]. unfold store. simpl. apply fget_fput_other. apply sym_key. exact Hne.
+  - split; [simpl; apply (get_put_same (with_md e (Some l)))|]. split; [reflexivity|]. split; [intros; reflexivity|].
+    split; [reflexivity|]. split; [reflexivity|]. split.
+    + unfold store, read. simpl. apply fget_fput_same.
+    + intros w u Hne. split; [simpl; apply (get_put_other (with_md e (Some l))); exact Hne|].
+      unfold store. simpl. apply fget_fput_other. apply sym_key. exact Hne.
+Qed.
+
+(* the electrode metadata getter *)
+Lemma dc_md_spec s e m s1 :
+  get_ent (wsp e) (uid e) (ents s) = Some e -> (forall l, md e = Some l -> (l < next s)%N) ->
+  dc_md s e = (m, s1) ->
+  (next s <= next s1)%N /\ file s1 = file s
+  /\ (forall l0, (l0 < next s)%N -> hget l0 (heap s1) = hget l0 (heap s))
+  /\ (forall w u, (wsp e <> w \/ uid e <> u) -> get_ent w u (ents s1) = get_ent w u (ents s))
+  /\ match m with
+     | Some l => get_ent (wsp e) (uid e) (ents s1) = Some (with_md e (Some l)) /\ (l < next s1)%N
+                 /\ (md e = Some l \/ (md e = None /\ exists fd, fget (wsp e) (uid e) (file s) = Some fd /\ expand (wheap s1) (hget l (heap s1)) = fd))
+     | None => s1 = s /\ md e = None /\ fget (wsp e) (uid e) (file s) = None
+     end.
+Proof.
+  intros G Hfresh E. unfold dc_md in E. destruct (md e) as [l|] eqn:Em.
+  - inversion E; subst. assert (Ee : with_md e (Some l) = e) by (destruct e; simpl in *; subst; reflexivity). rewrite Ee.
+    split; [lia|]. split; [reflexivity|]. split; [intros; reflexivity|]. split; [intros; reflexivity|].
+    split; [exact G|]. split; [apply Hfresh; reflexivity | left; reflexivity].
+  - destruct (fget (wsp e) (uid e) (file s)) as [fd|] eqn:Ef.
+    + destruct (load fd s) as [d s0] eqn:El. destruct (load_spec _ _ _ _ El) as (H1 & H2 & H3 & H4 & H5 & H6 & H7).
+      inversion E; subst m s1; clear E. set (l := next s0).
+      split; [simpl; lia|]. split; [exact H3|]. split.
+      { intros l0 Hl0. simpl. rewrite hget_hset_other by (unfold l; lia). rewrite H2. reflexivity. }
+      split.
+      { intros w u Hne. simpl. rewrite (get_put_other (with_md e (Some l))) by exact Hne. rewrite H1. reflexivity. }
+      split; [simpl; apply (get_put_same (with_md e (Some l)))|]. split; [simpl; unfold l; lia|].
+      right. split; [reflexivity|]. exists fd. split; [reflexivity|]. simpl. rewrite hget_hset_same. exact H5.
+    + inversion E; subst. split; [lia|]. split; [reflexivity|]. split; [intros; reflexivity|]. split; [intros; reflexivity|].
+      split; [reflexivity | split; reflexivity].
+Qed.
+
+Definition dlive (s : st) (ua ub : N) (x : ent) : Prop :=
+  forall l, md x = Some l -> (l < next s)%N /\ dgood ua ub (hget l (heap s)).
+Definition dfile (s : st) (ua ub : N) (x : ent) : Prop :=
+  exists fd, fget (wsp x) (uid x) (file s) = Some fd /\ fgood ua ub fd.
+Definition dfresh (s : st) (x : ent) : Prop := forall l, md x = Some l -> (l < next s)%N.
+
+(* entries for the two link keys, if any, carry the right identifiers *)
+Definition dcompat (ua ub : N) (d : dict) : Prop :=
+  forall k v, In (k, v) d -> (k = KA -> v = VU ua) /\ (k = KB -> v = VU ub).
+
+Lemma in_keys {V} k (d : list (nat * V)) : In k (map fst d) -> exists v, In (k, v) d.
+Proof. intros H. apply in_map_iff in H. destruct H as [[k' v] [E H]]. simpl in E. subst. exists v. exact H. Qed.
+
+Lemma upd_good ua ub new old : dcompat ua ub new -> (dgood ua ub old \/ dgood ua ub new) -> dgood ua ub (upd new old).
+Proof.
+  intros Hc Hg.
+  assert (Hk : forall k x, (k = KA /\ x = VU ua) \/ (k = KB /\ x = VU ub) ->
+               (dget k old = Some x \/ dget k new = Some x) -> dget k (upd new old) = Some x).
+  { intros k x Hkx Hor. destruct (in_dec Nat.eq_dec k (map fst new)) as [Hin|Hin].
+    - apply upd_same; [exact Hin|]. intros v Hv. destruct (Hc k v Hv) as [Ha Hb].
+      destruct Hkx as [[Ek Ex]|[Ek Ex]]; subst x; [apply Ha | apply Hb]; exact Ek.
+    - rewrite upd_other by exact Hin. destruct Hor as [Ho|Hn]; [exact Ho|].
+      exfalso. apply Hin. apply dget_in in Hn. apply (in_map fst) in Hn. exact Hn. }
+  split.
+  - apply Hk; [left; split; reflexivity|]. destruct Hg as [[A _]|[A _]]; [left | right]; exact A.
+  - apply Hk; [right; split; reflexivity|]. destruct Hg as [[_ B]|[_ B]]; [left | right]; exact B.
+Qed.
+
+(* Lemma A: the getter of e keeps (or establishes, from a good stored dict) the liveness facts of every entity *)
+Lemma dc_md_keeps s e m s1 ua ub x :
+  get_ent (wsp e) (uid e) (ents s) = Some e -> dfresh s e -> dc_md s e = (m, s1) ->
+  get_ent (wsp x) (uid x) (ents s) = Some x ->
+  (forall fd, fget (wsp e) (uid e) (file s) = Some fd -> md e = None -> fgood ua ub fd) ->
+  exists x1, get_ent (wsp x) (uid x) (ents s1) = Some x1
+    /\ wsp x1 = wsp x /\ uid x1 = uid x /\ fam x1 = fam x /\ rol x1 = rol x
+    /\ (dfresh s x -> dfresh s1 x1) /\ (dlive s ua ub x -> dlive s1 ua ub x1) /\ (dfile s ua ub x -> dfile s1 ua ub x1)
+    /\ (next s <= next s1)%N
+    /\ ((wsp e <> wsp x \/ uid e <> uid x) -> x1 = x /\ fget (wsp x) (uid x) (file s1) = fget (wsp x) (uid x) (file s)).
+Proof.
+  intros G Hfr E Gx Hfile.
+  destruct (dc_md_spec s e m s1 G Hfr E) as (N1 & F1 & H1 & O1 & Hm).
+  destruct (Bool.bool_dec (wsp e) (wsp x)) as [Ew|Ew]; [destruct (N.eq_dec (uid e) (uid x)) as [Eu|Eu]|].
+  - (* x is e itself *)
+    assert (x = e) by (rewrite <- Ew, <- Eu in Gx; congruence). subst x.
+    destruct m as [l|].
+    + destruct Hm as (G1 & L1 & Hor). exists (with_md e (Some l)). split; [exact G1|].
+      split; [reflexivity|]. split; [reflexivity|]. split; [reflexivity|]. split; [reflexivity|].
+      split; [intros _ l1 E1; simpl in E1; inversion E1; subst; exact L1|].
+      split; [|split; [|split; [exact N1 | intros [Hc|Hc]; exfalso; apply Hc; reflexivity]]].
+      * intros Hlv l1 E1. simpl in E1. inversion E1; subst l1. split; [exact L1|].
+        destruct Hor as [Em|[Em (fd & Ef & Ex)]].
+        -- destruct (Hlv l Em) as [Hlt Hg]. rewrite H1 by exact Hlt. exact Hg.
+        -- apply (expand_good (wheap s1)). rewrite Ex. apply (Hfile fd Ef Em).
+      * intros (fd & Ef & Hg). exists fd. simpl. rewrite F1. split; assumption.
+    + destruct Hm as (Es & Em & Ef). subst s1. exists e. split; [exact G|].
+      split; [reflexivity|]. split; [reflexivity|]. split; [reflexivity|]. split; [reflexivity|]. split; [auto|]. split; [auto|]. split; [auto|]. split; [lia | intros [Hc|Hc]; exfalso; apply Hc; reflexivity].
+  - exists x. rewrite (O1 _ _ (or_intror Eu)). split; [exact Gx|].
+    split; [reflexivity|]. split; [reflexivity|]. split; [reflexivity|]. split; [reflexivity|].
+    split; [intros Hx l1 El; apply Hx in El; lia|].
+    split; [intros Hx l1 El; destruct (Hx l1 El) as [Hlt Hg]; split; [lia|]; rewrite H1 by exact Hlt; exact Hg|].
+    split; [intros (fd & Ef & Hg); exists fd; rewrite F1; split; assumption|]. split; [exact N1 | intros _; split; [reflexivity | rewrite F1; reflexivity]].
+  - exists x. rewrite (O1 _ _ (or_introl Ew)). split; [exact Gx|].
+    split; [reflexivity|]. split; [reflexivity|]. split; [reflexivity|]. split; [reflexivity|].
+    split; [intros Hx l1 El; apply Hx in El; lia|].
+    split; [intros Hx l1 El; destruct (Hx l1 El) as [Hlt Hg]; split; [lia|]; rewrite H1 by exact Hlt; exact Hg|].
+    split; [intros (fd & Ef & Hg); exists fd; rewrite F1; split; assumption|]. split; [exact N1 | intros _; split; [reflexivity | rewrite F1; reflexivity]].
+Qed.
+
+(* Lemma B: the setter of e with a compatible dict l; the result is good when the old dict was, or when l itself names both *)
+Lemma dc_assign_keeps s e l ua ub x :
+  get_ent (wsp e) (uid e) (ents s) = Some e -> dfresh s e -> (l < next s)%N ->
+  dcompat ua ub (hget l (heap s)) ->
+  (dlive s ua ub e /\ (md e = None -> dgood ua ub (hget l (heap s))) \/ dgood ua ub (hget l (heap s))) ->
+  get_ent (wsp x) (uid x) (ents s) = Some x ->
+  let s' := dc_assign s e l in
+  exists x1, get_ent (wsp x) (uid x) (ents s') = Some x1
+    /\ wsp x1 = wsp x /\ uid x1 = uid x /\ fam x1 = fam x /\ rol x1 = rol x
+    /\ (dfresh s x -> dfresh s' x1)
+    /\ ((wsp e = wsp x /\ uid e = uid x) -> dlive s' ua ub x1 /\ dfile s' ua ub x1)
+    /\ (dlive s ua ub x -> dlive s' ua ub x1) /\ (dfile s ua ub x -> dfile s' ua ub x1)
+    /\ next s' = next s
+    /\ ((wsp e <> wsp x \/ uid e <> uid x) -> x1 = x /\ fget (wsp x) (uid x) (file s') = fget (wsp x) (uid x) (file s)).
+Proof.
+  intros G Hfr Hl Hc Hgood Gx. cbv zeta.
+  destruct (dc_assign_spec s e l G) as (G1 & D1 & O1 & W1 & N1 & F1 & R1).
+  set (l' := match md e with Some l0 => l0 | None => l end) in *.
+  set (dn := match md e with Some l0 => upd (hget l (heap s)) (hget l0 (heap s)) | None => hget l (heap s) end) in *.
+  assert (Hdn : dgood ua ub dn).
+  { unfold dn. destruct (md e) as [l0|] eqn:Em.
+    - apply upd_good; [exact Hc|]. destruct Hgood as [[Hlive _]|Hg]; [left; first [apply (proj2 (Hlive l0 Em)) | apply (proj2 (Hlive l0 eq_refl))] | right; exact Hg].
+    - destruct Hgood as [[_ Hn]|Hg]; [apply Hn; reflexivity | exact Hg]. }
+  assert (Hl' : (l' < next s)%N) by (unfold l'; destruct (md e) as [l0|] eqn:Em; [apply Hfr; first [exact Em | reflexivity] | exact Hl]).
+  assert (Hlive_any : forall y, md y = Some l' \/ dlive s ua ub y -> forall l1, md y = Some l1 ->
+                        (l1 < next s)%N -> (l1 < next (dc_assign s e l))%N /\ dgood ua ub (hget l1 (heap (dc_assign s e l)))).
+  { intros y Hy l1 E1 Hlt. split; [rewrite N1; exact Hlt|].
+    destruct (N.eq_dec l1 l') as [El|El]; [subst l1; rewrite D1; exact Hdn|].
+    rewrite O1 by exact El. destruct Hy as [Hy|Hy]; [congruence | apply (Hy l1 E1)]. }
+  destruct (Bool.bool_dec (wsp e) (wsp x)) as [Ew|Ew]; [destruct (N.eq_dec (uid e) (uid x)) as [Eu|Eu]|].
+  - assert (x = e) by (rewrite <- Ew, <- Eu in Gx; congruence). subst x.
+    exists (with_md e (Some l')). split; [exact G1|]. split; [reflexivity|]. split; [reflexivity|]. split; [reflexivity|]. split; [reflexivity|].
+    assert (Hboth : dlive (dc_assign s e l) ua ub (with_md e (Some l')) /\ dfile (dc_assign s e l) ua ub (with_md e (Some l'))).
+    { split.
+      - intros l1 E1. simpl in E1. inversion E1; subst l1. apply (Hlive_any (with_md e (Some l')) (or_introl eq_refl) l' eq_refl Hl').
+      - exists (expand (wheap s) dn). split; [exact F1 | apply good_expand; exact Hdn]. }
+    split; [intros _ l1 E1; simpl in E1; inversion E1; subst; rewrite N1; exact Hl'|].
+    split; [intros _; exact Hboth|]. split; [intros _; apply Hboth | split; [intros _; apply Hboth | split; [exact N1 | intros [Hx|Hx]; exfalso; apply Hx; reflexivity]]].
+  - destruct (R1 (wsp x) (uid x) (or_intror Eu)) as [Rg Rf].
+    exists x. rewrite Rg. split; [exact Gx|]. split; [reflexivity|]. split; [reflexivity|]. split; [reflexivity|]. split; [reflexivity|].
+    split; [intros Hx l1 E1; rewrite N1; apply Hx; exact E1|].
+    split; [intros [_ E]; contradiction|].
+    split; [intros Hx l1 E1; apply (Hlive_any x (or_intror Hx) l1 E1); apply (Hx l1 E1)|].
+    split; [intros (fd & Ef & Hg); exists fd; rewrite Rf; split; assumption|]. split; [exact N1 | intros _; split; [reflexivity | exact Rf]].
+  - destruct (R1 (wsp x) (uid x) (or_introl Ew)) as [Rg Rf].
+    exists x. rewrite Rg. split; [exact Gx|]. split; [reflexivity|]. split; [reflexivity|]. split; [reflexivity|]. split; [reflexivity|].
+    split; [intros Hx l1 E1; rewrite N1; apply Hx; exact E1|].
+    split; [intros [E _]; contradiction|].
+    split; [intros Hx l1 E1; apply (Hlive_any x (or_intror Hx) l1 E1); apply (Hx l1 E1)|].
+    split; [intros (fd & Ef & Hg); exists fd; rewrite Rf; split; assumption|]. split; [exact N1 | intros _; split; [reflexivity | exact Rf]].
+Qed.
+
+(* getter + setter of electrode e with the dict object l, seen from e and from another entity o *)
+Definition dc_put (s : st) (e : ent) (l : N) : st := let '(_, s1) := dc_md s e in dc_assign s1 (refresh s1 e) l.
+
+Lemma dc_put_spec s e o l ua ub :
+  get_ent (wsp e) (uid e) (ents s) = Some e -> get_ent (wsp o) (uid o) (ents s) = Some o ->
+  (wsp e <> wsp o \/ uid e <> uid o) ->
+  dfresh s e -> dfresh s o -> (l < next s)%N -> dcompat ua ub (hget l (heap s)) ->
+  (forall fd, fget (wsp e) (uid e) (file s) = Some fd -> md e = None -> fgood ua ub fd) ->
+  (dlive s ua ub e /\ (md e = None -> fget (wsp e) (uid e) (file s) = None -> dgood ua ub (hget l (heap s)))
+   \/ dgood ua ub (hget l (heap s))) ->
+  let s' := dc_put s e l in
+  exists e' o',
+    get_ent (wsp e) (uid e) (ents s') = Some e' /\ get_ent (wsp o) (uid o) (ents s') = Some o'
+    /\ wsp e' = wsp e /\ uid e' = uid e /\ fam e' = fam e /\ rol e' = rol e
+    /\ wsp o' = wsp o /\ uid o' = uid o /\ fam o' = fam o /\ rol o' = rol o
+    /\ dfresh s' e' /\ dfresh s' o' /\ dlive s' ua ub e' /\ dfile s' ua ub e'
+    /\ (dlive s ua ub o -> dlive s' ua ub o') /\ (dfile s ua ub o -> dfile s' ua ub o')
+    /\ (next s <= next s')%N
+    /\ ((forall l0, md e = Some l0 -> l0 <> l) -> hget l (heap s') = hget l (heap s))
+    /\ o' = o /\ fget (wsp o) (uid o) (file s') = fget (wsp o) (uid o) (file s).
+Proof.
+  intros Ge Go Hne Fe Fo Hl Hc Hfile Hgood. unfold dc_put. cbv zeta.
+  destruct (dc_md s e) as [m s1] eqn:Em.
+  destruct (dc_md_spec s e m s1 Ge Fe Em) as (N1 & F1 & H1 & O1 & Hm).
+  destruct (dc_md_keeps s e m s1 ua ub e Ge Fe Em Ge Hfile) as (e1 & Ge1 & We1 & Ue1 & Fa1 & Ro1 & Fr1 & Lv1 & Fl1 & _ & _).
+  destruct (dc_md_keeps s e m s1 ua ub o Ge Fe Em Go Hfile) as (o1 & Go1 & Wo1 & Uo1 & Fao1 & Roo1 & Fro1 & Lvo1 & Flo1 & _ & Same1).
+  assert (Hr : refresh s1 e = e1) by (apply refresh_get; exact Ge1). rewrite Hr.
+  assert (Ge1' : get_ent (wsp e1) (uid e1) (ents s1) = Some e1) by (rewrite We1, Ue1; exact Ge1).
+  assert (Go1' : get_ent (wsp o1) (uid o1) (ents s1) = Some o1) by (rewrite Wo1, Uo1; exact Go1).
+  assert (Hl1 : (l < next s1)%N) by lia.
+  assert (Hhl : hget l (heap s1) = hget l (heap s)) by (apply H1; exact Hl).
+  assert (Hc1 : dcompat ua ub (hget l (heap s1))) by (rewrite Hhl; exact Hc).
+  assert (Hmd1 : md e1 = m).
+  { destruct m as [lm|].
+    - destruct Hm as (G1 & _). rewrite Ge1 in G1. inversion G1. reflexivity.
+    - destruct Hm as (Es & Emd & _). rewrite Es in Ge1. rewrite Ge in Ge1. inversion Ge1 as [E1]. rewrite <- E1. exact Emd. }
+  assert (Hgood1 : dlive s1 ua ub e1 /\ (md e1 = None -> dgood ua ub (hget l (heap s1))) \/ dgood ua ub (hget l (heap s1))).
+  { rewrite Hhl. destruct Hgood as [[Hlv Hn]|Hg]; [|right; exact Hg].
+    destruct m as [lm|].
+    - destruct Hm as (_ & Llm & Hor). left. split; [|rewrite Hmd1; discriminate].
+      destruct Hor as [Emd|[Emd (fd & Ef & Ex)]].
+      + apply Lv1. exact Hlv.
+      + intros l1 E1. rewrite Hmd1 in E1. inversion E1; subst l1. split; [exact Llm|].
+        apply (expand_good (wheap s1)). rewrite Ex. apply (Hfile fd Ef Emd).
+    - destruct Hm as (Es & Emd & Ef). left. split; [apply Lv1; exact Hlv|]. intros _. apply Hn; assumption. }
+  destruct (dc_assign_keeps s1 e1 l ua ub e1 Ge1' (Fr1 Fe) Hl1 Hc1 Hgood1 Ge1')
+    as (e2 & Ge2 & We2 & Ue2 & Fa2 & Ro2 & Fr2 & Own2 & _ & _ & N2 & _).
+  destruct (dc_assign_keeps s1 e1 l ua ub o1 Ge1' (Fr1 Fe) Hl1 Hc1 Hgood1 Go1')
+    as (o2 & Go2 & Wo2 & Uo2 & Fao2 & Roo2 & Fro2 & _ & Lvo2 & Flo2 & _ & Same2).
+  destruct (Own2 (conj eq_refl eq_refl)) as [Lv2 Fl2].
+  exists e2, o2.
+  split; [rewrite <- We1, <- Ue1; exact Ge2|]. split; [rewrite <- Wo1, <- Uo1; exact Go2|].
+  split; [congruence|]. split; [congruence|]. split; [congruence|]. split; [congruence|].
+  split; [congruence|]. split; [congruence|]. split; [congruence|]. split; [congruence|].
+  split; [apply Fr2; apply Fr1; exact Fe|]. split; [apply Fro2; apply Fro1; exact Fo|].
+  split; [exact Lv2|]. split; [exact Fl2|].
+  split; [intros H; apply Lvo2; apply Lvo1; exact H|]. split; [intros H; apply Flo2; apply Flo1; exact H|].
+  split; [rewrite N2; exact N1|].
+  assert (Hsame : o2 = o /\ fget (wsp o) (uid o) (file (dc_assign s1 e1 l)) = fget (wsp o) (uid o) (file s)).
+  { destruct (Same1 Hne) as [E1 F1']. destruct (Same2 ltac:(rewrite We1, Ue1, Wo1, Uo1; exact Hne)) as [E2 F2'].
+    split; [congruence|]. rewrite Wo1, Uo1 in F2'. rewrite F2'. exact F1'. }
+  split; [|exact Hsame].
+  intros Hnl. destruct (dc_assign_spec s1 e1 l Ge1') as (_ & Dn & Oth & _). rewrite Hmd1 in Dn, Oth.
+  destruct m as [lm|].
+  - rewrite Oth; [exact Hhl|]. destruct Hm as (_ & Llm & Hor). destruct Hor as [Emd|[Emd (fd & Ef & Ex)]].
+    + intros E. apply (Hnl lm Emd). symmetry. exact E.
+    + (* loaded: the new cell is younger than l *)
+      intros E. subst lm. unfold dc_md in Em. rewrite Emd, Ef in Em. destruct (load fd s) as [d s0] eqn:El.
+      destruct (load_spec _ _ _ _ El) as (_ & _ & _ & Hle & _). inversion Em; subst. simpl in Hl1. lia.
+  - (* adopted: the entity now holds l itself, whose cell is untouched *)
+    rewrite Dn. exact Hhl.
+Qed.
+
+Lemma refresh_key s b : wsp (refresh s b) = wsp b /\ uid (refresh s b) = uid b.
+Proof.
+  unfold refresh. destruct (get_ent (wsp b) (uid b) (ents s)) as [x|] eqn:G; [apply (get_ent_some _ _ _ _ G) | split; reflexivity].
+Qed.
+
+Lemma dc_link_unfold s a b :
+  dc_link s a b =
+  let pa := if match rol a with RA => true | RB => false end then a else b in
+  let pb := if match rol a with RA => true | RB => false end then b else a in
+  let l := next s in
+  let s0 := bump (set_heap s (hset l [(KA, VU (uid pa)); (KB, VU (uid pb))] (heap s))) in
+  let s2 := dc_put s0 a l in
+  dc_put s2 (refresh s2 b) l.
+Proof.
+  unfold dc_link, dc_put. cbv zeta. destruct (dc_md _ a) as [m1 s1]. destruct (dc_md _ (refresh _ b)) as [m3 s3]. reflexivity.
+Qed.
+
+Definition dstored_ok (s : st) (ua ub : N) (e : ent) : Prop :=
+  forall fd, fget (wsp e) (uid e) (file s) = Some fd -> md e = None -> fgood ua ub fd.
+
+(* x.<partner> = y for electrodes x, y of opposite roles: whatever they held before, both end up naming both, live and stored *)
+Lemma dc_link_any s w x y ua ub :
+  get_ent w (uid x) (ents s) = Some x -> get_ent w (uid y) (ents s) = Some y -> uid x <> uid y ->
+  fam x = FDC -> fam y = FDC ->
+  ((rol x = RA /\ rol y = RB /\ uid x = ua /\ uid y = ub) \/ (rol x = RB /\ rol y = RA /\ uid x = ub /\ uid y = ua)) ->
+  dfresh s x -> dfresh s y -> dstored_ok s ua ub x -> dstored_ok s ua ub y ->
+  dinv (dc_link s x y) w ua ub.
+Proof.
+  intros Gx Gy Hne Fx Fy Hor Frx Fry Sx Sy.
+  destruct (get_ent_some _ _ _ _ Gx) as [Wx _]. destruct (get_ent_some _ _ _ _ Gy) as [Wy _].
+  rewrite dc_link_unfold. cbv zeta.
+  set (l := next s).
+  assert (Hd : [(KA, VU (uid (if match rol x with RA => true | RB => false end then x else y)));
+                (KB, VU (uid (if match rol x with RA => true | RB => false end then y else x)))] = [(KA, VU ua); (KB, VU ub)]).
+  { destruct Hor as [(R1 & R2 & U1 & U2)|(R1 & R2 & U1 & U2)]; rewrite R1; simpl; rewrite U1, U2; reflexivity. }
+  rewrite Hd. set (dnew := [(KA, VU ua); (KB, VU ub)]).
+  set (s0 := bump (set_heap s (hset l dnew (heap s)))).
+  assert (Hg : dgood ua ub dnew) by (split; reflexivity).
+  assert (Hc : dcompat ua ub dnew).
+  { intros k v [E|[E|[]]]; inversion E; subst; split; intros E'; try discriminate; reflexivity. }
+  assert (Hl0 : hget l (heap s0) = dnew) by (unfold s0; simpl; apply hget_hset_same).
+  assert (Hlt : (l < next s0)%N) by (unfold s0, l; simpl; lia).
+  assert (Fr0 : forall z, dfresh s z -> dfresh s0 z) by (intros z H l0 E; apply H in E; unfold s0; simpl; lia).
+  assert (Gx0 : get_ent (wsp x) (uid x) (ents s0) = Some x) by (rewrite Wx; exact Gx).
+  assert (Gy0 : get_ent (wsp y) (uid y) (ents s0) = Some y) by (rewrite Wy; exact Gy).
+  destruct (dc_put_spec s0 x y l ua ub Gx0 Gy0 (or_intror Hne) (Fr0 x Frx) (Fr0 y Fry) Hlt
+              ltac:(rewrite Hl0; exact Hc) Sx ltac:(right; rewrite Hl0; exact Hg))
+    as (x' & y' & Gx' & Gy' & Wx' & Ux' & Fax' & Rox' & Wy' & Uy' & Fay' & Roy' & Frx' & Fry' & Lvx' & Flx' & _ & _ & Nx & Hkeep & Ey & Fy').
+  set (s2 := dc_put s0 x l) in *.
+  assert (Hl2 : hget l (heap s2) = dnew).
+  { rewrite Hkeep; [exact Hl0|]. intros l0 E. apply Frx in E. unfold l. lia. }
+  subst y'.
+  assert (Hr : refresh s2 y = y) by (apply refresh_get; exact Gy'). rewrite Hr.
+  assert (Gx2 : get_ent (wsp x') (uid x') (ents s2) = Some x') by (rewrite Wx', Ux'; exact Gx').
+  assert (Sy2 : dstored_ok s2 ua ub y) by (intros fd Ef Em; apply (Sy fd); [rewrite Fy' in Ef; exact Ef | exact Em]).
+  destruct (dc_put_spec s2 y x' l ua ub Gy' Gx2 ltac:(right; rewrite Ux'; intros E; apply Hne; symmetry; exact E) Fry' Frx' ltac:(lia)
+              ltac:(rewrite Hl2; exact Hc) Sy2 ltac:(right; rewrite Hl2; exact Hg))
+    as (y'' & x'' & Gy'' & Gx'' & Wy'' & Uy'' & Fay'' & Roy'' & Wx'' & Ux'' & Fax'' & Rox'' & Fry'' & Frx'' & Lvy'' & Fly'' & Lvx'' & Flx'' & _).
+  rewrite Wx', Ux' in Gx''. rewrite Wx in Gx''. rewrite Wy in Gy''.
+  assert (Nx'' : dnames (dc_put s2 y l) ua ub x'') by (split; [apply Flx''; exact Flx' | apply Lvx''; exact Lvx']).
+  assert (Ny'' : dnames (dc_put s2 y l) ua ub y'') by (split; [exact Fly'' | exact Lvy'']).
+  destruct Hor as [(R1 & R2 & U1 & U2)|(R1 & R2 & U1 & U2)].
+  - exists x'', y''. rewrite <- U1, <- U2.
+    split; [exact Gx''|]. split; [exact Gy''|]. split; [exact Hne|].
+    split; [congruence|]. split; [congruence|]. split; [congruence|]. split; [congruence|].
+    rewrite U1, U2. split; assumption.
+  - exists y'', x''. rewrite <- U1, <- U2.
+    split; [exact Gy''|]. split; [exact Gx''|]. split; [intros E; apply Hne; symmetry; exact E|].
+    split; [congruence|]. split; [congruence|]. split; [congruence|]. split; [congruence|].
+    rewrite U1, U2. split; assumption.
+Qed.
+
+Theorem dc_link_symmetric s w ea eb :
+  get_ent w (uid ea) (ents s) = Some ea -> get_ent w (uid eb) (ents s) = Some eb -> uid ea <> uid eb ->
+  fam ea = FDC -> fam eb = FDC -> rol ea = RA -> rol eb = RB ->
+  dfresh s ea -> dfresh s eb -> dstored_ok s (uid ea) (uid eb) ea -> dstored_ok s (uid ea) (uid eb) eb ->
+  dinv (dc_link s ea eb) w (uid ea) (uid eb) /\ dinv (dc_link s eb ea) w (uid ea) (uid eb).
+Proof.
+  intros Ga Gb Hne Fa Fb Ra Rb Fra Frb Sa Sb. split.
+  - apply (dc_link_any s w ea eb (uid ea) (uid eb)); try assumption. left. repeat split; assumption.
+  - apply (dc_link_any s w eb ea (uid ea) (uid eb)); try assumption.
+    + intros E. apply Hne. symmetry. exact E.
+    + right. repeat split; assumption.
+Qed.
+
+(* a setter of electrode e = getter, allocation of the argument dict (any allocation that leaves older cells alone), assignment *)
+Definition alloc_ok (ua ub : N) (alloc : st -> st * N) : Prop :=
+  forall s1, let '(s2, l) := alloc s1 in
+    ents s2 = ents s1 /\ file s2 = file s1 /\ (next s1 <= next s2)%N
+    /\ (forall l0, (l0 < next s1)%N -> hget l0 (heap s2) = hget l0 (heap s1))
+    /\ (l < next s2)%N /\ dcompat ua ub (hget l (heap s2)).
+
+Lemma dnames_frame s1 s2 ua ub x :
+  file s2 = file s1 -> (next s1 <= next s2)%N -> (forall l0, (l0 < next s1)%N -> hget l0 (heap s2) = hget l0 (heap s1)) ->
+  dnames s1 ua ub x -> dnames s2 ua ub x.
+Proof.
+  intros F N H [(fd & Ef & Hg) Hl]. split; [exists fd; rewrite F; split; assumption|].
+  intros l E. destruct (Hl l E) as [Hlt Hd]. split; [lia|]. rewrite H by exact Hlt. exact Hd.
+Qed.
+
+Lemma dc_setter_keeps s e o ua ub (alloc : N -> st -> st * N) :
+  get_ent (wsp e) (uid e) (ents s) = Some e -> get_ent (wsp o) (uid o) (ents s) = Some o ->
+  (wsp e <> wsp o \/ uid e <> uid o) ->
+  dnames s ua ub e -> dnames s ua ub o -> (forall lm, alloc_ok ua ub (alloc lm)) ->
+  exists lm s1, dc_md s e = (Some lm, s1) /\
+    let '(s2, l) := alloc lm s1 in
+    let s' := dc_assign s2 (refresh s2 e) l in
+    exists e' o',
+      get_ent (wsp e) (uid e) (ents s') = Some e' /\ get_ent (wsp o) (uid o) (ents s') = Some o'
+      /\ fam e' = fam e /\ rol e' = rol e /\ fam o' = fam o /\ rol o' = rol o
+      /\ dnames s' ua ub e' /\ dnames s' ua ub o'.
+Proof.
+  intros Ge Go Hne [Fe Le] [Fo Lo] Hal.
+  assert (Fre : dfresh s e) by (intros l E; apply (Le l E)).
+  assert (Fro : dfresh s o) by (intros l E; apply (Lo l E)).
+  assert (Hfile : forall fd, fget (wsp e) (uid e) (file s) = Some fd -> md e = None -> fgood ua ub fd).
+  { intros fd Ef _. destruct Fe as (fd' & Ef' & Hg). congruence. }
+  destruct (dc_md s e) as [m s1] eqn:Em.
+  destruct (dc_md_spec s e m s1 Ge Fre Em) as (N1 & F1 & H1 & O1 & Hm).
+  destruct (dc_md_keeps s e m s1 ua ub e Ge Fre Em Ge Hfile) as (e1 & Ge1 & We1 & Ue1 & Fa1 & Ro1 & Fr1 & Lv1 & Fl1 & _ & _).
+  destruct (dc_md_keeps s e m s1 ua ub o Ge Fre Em Go Hfile) as (o1 & Go1 & Wo1 & Uo1 & Fao1 & Roo1 & Fro1 & Lvo1 & Flo1 & _ & Same1).
+  destruct m as [lm|]; [|destruct Hm as (_ & _ & Ef); destruct Fe as (fd & Ef' & _); congruence].
+  exists lm, s1. split; [reflexivity|].
+  specialize (Hal lm s1). destruct (alloc lm s1) as [s2 l]. destruct Hal as (A1 & A2 & A3 & A4 & A5 & A6). cbv zeta.
+  assert (Hr : refresh s2 e = e1) by (apply refresh_get; rewrite A1; exact Ge1). rewrite Hr.
+  assert (Ne1 : dnames s2 ua ub e1) by (apply (dnames_frame s1 s2 ua ub e1 A2 A3 A4); split; [apply Fl1; exact Fe | apply Lv1; exact Le]).
+  assert (No1 : dnames s2 ua ub o1) by (apply (dnames_frame s1 s2 ua ub o1 A2 A3 A4); split; [apply Flo1; exact Fo | apply Lvo1; exact Lo]).
+  assert (Ge2 : get_ent (wsp e1) (uid e1) (ents s2) = Some e1) by (rewrite A1, We1, Ue1; exact Ge1).
+  assert (Go2 : get_ent (wsp o1) (uid o1) (ents s2) = Some o1) by (rewrite A1, Wo1, Uo1; exact Go1).
+  assert (Hmd1 : md e1 = Some lm) by (destruct Hm as (G1 & _); rewrite Ge1 in G1; inversion G1; reflexivity).
+  assert (Hgood : dlive s2 ua ub e1 /\ (md e1 = None -> dgood ua ub (hget l (heap s2))) \/ dgood ua ub (hget l (heap s2))).
+  { left. split; [exact (proj2 Ne1) | rewrite Hmd1; discriminate]. }
+  assert (Fre2 : dfresh s2 e1) by (intros l0 E; apply (proj2 Ne1 l0 E)).
+  destruct (dc_assign_keeps s2 e1 l ua ub e1 Ge2 Fre2 A5 A6 Hgood Ge2) as (e3 & Ge3 & We3 & Ue3 & Fa3 & Ro3 & _ & Own3 & _ & _ & _ & _).
+  destruct (dc_assign_keeps s2 e1 l ua ub o1 Ge2 Fre2 A5 A6 Hgood Go2) as (o3 & Go3 & Wo3 & Uo3 & Fao3 & Roo3 & _ & _ & Lvo3 & Flo3 & _ & _).
+  destruct (Own3 (conj eq_refl eq_refl)) as [Lv3 Fl3].
+  exists e3, o3.
+  split; [rewrite <- We1, <- Ue1; exact Ge3|]. split; [rewrite <- Wo1, <- Uo1; exact Go3|].
+  split; [congruence|]. split; [congruence|]. split; [congruence|]. split; [congruence|].
+  split; [split; assumption|]. split; [apply Flo3; exact (proj1 No1) | apply Lvo3; exact (proj2 No1)].
+Qed.
+
+Lemma dinv_sym_members s w ua ub : dinv s w ua ub ->
+  exists ea eb, get_ent w ua (ents s) = Some ea /\ get_ent w ub (ents s) = Some eb /\ ua <> ub
+    /\ wsp ea = w /\ uid ea = ua /\ wsp eb = w /\ uid eb = ub
+    /\ fam ea = FDC /\ fam eb = FDC /\ rol ea = RA /\ rol eb = RB /\ dnames s ua ub ea /\ dnames s ua ub eb.
+Proof.
+  intros (ea & eb & G1 & G2 & H). destruct (get_ent_some _ _ _ _ G1) as [W1 U1]. destruct (get_ent_some _ _ _ _ G2) as [W2 U2].
+  exists ea, eb. destruct H as (H3 & H4 & H5 & H6 & H7 & H8 & H9).
+  split; [exact G1|]. split; [exact G2|]. split; [exact H3|]. split; [exact W1|]. split; [exact U1|]. split; [exact W2|]. split; [exact U2|].
+  split; [exact H4|]. split; [exact H5|]. split; [exact H6|]. split; [exact H7|]. split; [exact H8 | exact H9].
+Qed.
+
+(* assemble the invariant from the two records after a setter of either member *)
+Lemma dinv_build s' w ua ub x y :
+  get_ent w ua (ents s') = Some x -> get_ent w ub (ents s') = Some y -> ua <> ub ->
+  fam x = FDC -> fam y = FDC -> rol x = RA -> rol y = RB -> dnames s' ua ub x -> dnames s' ua ub y -> dinv s' w ua ub.
+Proof.
+  intros A1 A2 A3 A4 A5 A6 A7 A8 A9. exists x, y.
+  split; [exact A1|]. split; [exact A2|]. split; [exact A3|]. split; [exact A4|]. split; [exact A5|]. split; [exact A6|]. split; [exact A7|]. split; [exact A8 | exact A9].
+Qed.
+
+Definition edit_alloc (k : nat) (z : Z) (_ : N) (s1 : st) : st * N :=
+  (bump (set_heap s1 (hset (next s1) [(k, VZ z)] (heap s1))), next s1).
+
+Lemma edit_alloc_ok ua ub k z lm : k <> KA -> k <> KB -> alloc_ok ua ub (edit_alloc k z lm).
+Proof.
+  intros Ha Hb s1. unfold edit_alloc. simpl.
+  split; [reflexivity|]. split; [reflexivity|]. split; [lia|].
+  split; [intros l0 Hl0; apply hget_hset_other; lia|]. split; [lia|].
+  rewrite hget_hset_same. intros k0 v [E|[]]. inversion E; subst. split; intros E'; contradiction.
+Qed.
+
+Lemma dc_edit_unfold s e k z lm s1 :
+  dc_md s e = (Some lm, s1) ->
+  dc_edit s e k z = Ok (let '(s2, l) := edit_alloc k z lm s1 in dc_assign s2 (refresh s2 e) l).
+Proof. intros E. unfold dc_edit. rewrite E. reflexivity. Qed.
+
+Definition crs_alloc (zn zd : Z) (l0 : N) (s1 : st) : st * N :=
+  let prev := match dget KC (hget l0 (heap s1)) with
+              | Some (VRef cl) => match dget 0 (hget cl (wheap s1)) with Some z => z | None => zd end
+              | _ => zd
+              end in
+  let cl := next s1 in
+  let s2 := bump (set_wheap s1 (hset cl [(0, zn); (1, prev)] (wheap s1))) in
+  let l := next s2 in
+  (bump (set_heap s2 (hset l [(KC, VRef cl)] (heap s2))), l).
+
+Lemma crs_alloc_ok ua ub zn zd lm : alloc_ok ua ub (crs_alloc zn zd lm).
+Proof.
+  intros s1. unfold crs_alloc. cbv zeta. simpl.
+  split; [reflexivity|]. split; [reflexivity|]. split; [lia|].
+  split; [intros l0 Hl0; apply hget_hset_other; lia|]. split; [lia|].
+  rewrite hget_hset_same. intros k0 v [E|[]]. inversion E; subst. split; intros E'; discriminate.
+Qed.
+
+Lemma dc_crs_unfold s e zn zd lm s1 :
+  dc_md s e = (Some lm, s1) ->
+  dc_crs s e zn zd = Ok (let '(s2, l) := crs_alloc zn zd lm s1 in dc_assign s2 (refresh s2 e) l).
+Proof. intros E. unfold dc_crs. rewrite E. reflexivity. Qed.
+
+(* operations on an electrode pair, from either side *)
+Inductive dpop := DLink (first : bool) | DEdit (first : bool) (k : nat) (z : Z) | DCrs (first : bool) (zn zd : Z) | DReopen.
+Definition dpop_ok (o : dpop) : Prop := match o with DEdit _ k _ => k <> KA /\ k <> KB | _ => True end.
+
+Definition unres (r : res st) (s : st) : st := match r with Ok x => x | Err _ => s end.
+
+Definition dstep (w : bool) (ua ub : N) (s : st) (o : dpop) : st :=
+  match get_ent w ua (ents s), get_ent w ub (ents s) with
+  | Some ea, Some eb =>
+      match o with
+      | DLink true => dc_link s ea eb
+      | DLink false => dc_link s eb ea
+      | DEdit true k z => unres (dc_edit s ea k z) s
+      | DEdit false k z => unres (dc_edit s eb k z) s
+      | DCrs true zn zd => unres (dc_crs s ea zn zd) s
+      | DCrs false zn zd => unres (dc_crs s eb zn zd) s
+      | DReopen => reopen s
+      end
+  | _, _ => s
+  end.
+
+Lemma dc_setter_dinv s w ua ub (b1 : bool) (alloc : N -> st -> st * N) :
+  dinv s w ua ub -> (forall lm, alloc_ok ua ub (alloc lm)) ->
+  forall ea eb, get_ent w ua (ents s) = Some ea -> get_ent w ub (ents s) = Some eb ->
+  let e := if b1 then ea else eb in
+  exists lm s1, dc_md s e = (Some lm, s1) /\ dinv (let '(s2, l) := alloc lm s1 in dc_assign s2 (refresh s2 e) l) w ua ub.
+Proof.
+  intros Hinv Hal ea eb Ga Gb. destruct (dinv_sym_members _ _ _ _ Hinv) as (xa & xb & G1 & G2 & Hne & Wa & Ua & Wb & Ub & Fa & Fb & Ra & Rb & Na & Nb).
+  assert (xa = ea) by congruence. assert (xb = eb) by congruence. subst xa xb. cbv zeta.
+  destruct b1.
+  - destruct (dc_setter_keeps s ea eb ua ub alloc) as (lm & s1 & Em & H); try assumption.
+    + rewrite Wa, Ua; exact Ga.
+    + rewrite Wb, Ub; exact Gb.
+    + right. rewrite Ua, Ub. exact Hne.
+    + exists lm, s1. split; [exact Em|]. destruct (alloc lm s1) as [s2 l]. destruct H as (e' & o' & Ge' & Go' & F1 & R1 & F2 & R2 & N1 & N2).
+      rewrite Wa, Ua in Ge'. rewrite Wb, Ub in Go'. apply (dinv_build _ w ua ub e' o'); try assumption; congruence.
+  - destruct (dc_setter_keeps s eb ea ua ub alloc) as (lm & s1 & Em & H); try assumption.
+    + rewrite Wb, Ub; exact Gb.
+    + rewrite Wa, Ua; exact Ga.
+    + right. rewrite Ua, Ub. intros E. apply Hne. symmetry. exact E.
+    + exists lm, s1. split; [exact Em|]. destruct (alloc lm s1) as [s2 l]. destruct H as (e' & o' & Ge' & Go' & F1 & R1 & F2 & R2 & N1 & N2).
+      rewrite Wb, Ub in Ge'. rewrite Wa, Ua in Go'. apply (dinv_build _ w ua ub o' e'); try assumption; congruence.
+Qed.
+
+Lemma dreopen_dinv s w ua ub : dinv s w ua ub -> dinv (reopen s) w ua ub.
+Proof.
+  intros (ea & eb & G1 & G2 & H3 & H4 & H5 & H6 & H7 & [Fa _] & [Fb _]).
+  set (f := fun e => with_cache (with_md e None) None).
+  exists (f ea), (f eb). unfold reopen. simpl ents.
+  rewrite !(get_ent_map f) by (intros e; split; reflexivity). rewrite G1, G2.
+  split; [reflexivity|]. split; [reflexivity|]. split; [exact H3|]. split; [exact H4|]. split; [exact H5|]. split; [exact H6|]. split; [exact H7|].
+  split; (split; [assumption | intros l E; discriminate]).
+Qed.
+
+Lemma dstep_dinv w ua ub s o : dinv s w ua ub -> dpop_ok o -> dinv (dstep w ua ub s o) w ua ub.
+Proof.
+  intros Hinv Hok. unfold dstep.
+  destruct (get_ent w ua (ents s)) as [ea|] eqn:Ga; [|exact Hinv].
+  destruct (get_ent w ub (ents s)) as [eb|] eqn:Gb; [|exact Hinv].
+  destruct (dinv_sym_members _ _ _ _ Hinv) as (xa & xb & G1 & G2 & Hne & Wa & Ua & Wb & Ub & Fa & Fb & Ra & Rb & Na & Nb).
+  assert (xa = ea) by congruence. assert (xb = eb) by congruence. subst xa xb.
+  assert (Sa : dstored_ok s ua ub ea) by (intros fd Ef _; destruct Na as [(fd' & Ef' & Hg) _]; congruence).
+  assert (Sb : dstored_ok s ua ub eb) by (intros fd Ef _; destruct Nb as [(fd' & Ef' & Hg) _]; congruence).
+  assert (Fra : dfresh s ea) by (intros l E; apply (proj2 Na l E)).
+  assert (Frb : dfresh s eb) by (intros l E; apply (proj2 Nb l E)).
+  destruct o as [[|]|[|] k z|[|] zn zd|].
+  - apply (dc_link_any s w ea eb ua ub); try assumption; try (rewrite Ua; exact Ga); try (rewrite Ub; exact Gb).
+    + rewrite Ua, Ub; exact Hne.
+    + left. repeat split; assumption.
+  - apply (dc_link_any s w eb ea ua ub); try assumption; try (rewrite Ua; exact Ga); try (rewrite Ub; exact Gb).
+    + rewrite Ua, Ub. intros E. apply Hne. symmetry. exact E.
+    + right. repeat split; assumption.
+  - destruct Hok as [Hka Hkb].
+    destruct (dc_setter_dinv s w ua ub true (edit_alloc k z) Hinv (fun lm => edit_alloc_ok ua ub k z lm Hka Hkb) ea eb Ga Gb) as (lm & s1 & Em & Hd).
+    rewrite (dc_edit_unfold _ _ _ _ _ _ Em). exact Hd.
+  - destruct Hok as [Hka Hkb].
+    destruct (dc_setter_dinv s w ua ub false (edit_alloc k z) Hinv (fun lm => edit_alloc_ok ua ub k z lm Hka Hkb) ea eb Ga Gb) as (lm & s1 & Em & Hd).
+    rewrite (dc_edit_unfold _ _ _ _ _ _ Em). exact Hd.
+  - destruct (dc_setter_dinv s w ua ub true (crs_alloc zn zd) Hinv (crs_alloc_ok ua ub zn zd) ea eb Ga Gb) as (lm & s1 & Em & Hd).
+    rewrite (dc_crs_unfold _ _ _ _ _ _ Em). exact Hd.
+  - destruct (dc_setter_dinv s w ua ub false (crs_alloc zn zd) Hinv (crs_alloc_ok ua ub zn zd) ea eb Ga Gb) as (lm & s1 & Em & Hd).
+    rewrite (dc_crs_unfold _ _ _ _ _ _ Em). exact Hd.
+  - apply dreopen_dinv. exact Hinv.
+Qed.
+
+Theorem dc_link_persists w ua ub : forall l s,
+  dinv s w ua ub -> Forall dpop_ok l -> dinv (fold_left (dstep w ua ub) l s) w ua ub.
+Proof.
+  induction l as [|o r IH]; intros s Hinv Hok; simpl; [exact Hinv|].
+  inversion Hok; subst. apply IH; [apply dstep_dinv; assumption | assumption].
+Qed.
+
+(* after re-open each electrode resolves its partner again *)
+Theorem dc_reopen_resolves s w ua ub e1 :
+  dinv s w ua ub -> (get_ent w ua (ents (reopen s)) = Some e1 \/ get_ent w ub (ents (reopen s)) = Some e1) ->
+  exists p s1, partner (reopen s) e1 = (Some p, s1) /\ wsp p = w
+    /\ ((uid e1 = ua /\ uid p = ub) \/ (uid e1 = ub /\ uid p = ua)).
+Proof.
+  intros Hinv He. pose proof (dreopen_dinv _ _ _ _ Hinv) as Hr.
+  destruct (dinv_sym_members _ _ _ _ Hr) as (ea & eb & G1 & G2 & Hne & Wa & Ua & Wb & Ub & Fa & Fb & Ra & Rb & Na & Nb).
+  assert (Hc : forall x, (get_ent w ua (ents (reopen s)) = Some x \/ get_ent w ub (ents (reopen s)) = Some x) -> cache x = None /\ md x = None).
+  { intros x Hx. unfold reopen in Hx. simpl ents in Hx.
+    rewrite !(get_ent_map (fun e => with_cache (with_md e None) None)) in Hx by (intros e; split; reflexivity).
+    destruct Hx as [Hx|Hx]; [destruct (get_ent w ua (ents s)) | destruct (get_ent w ub (ents s))]; simpl in Hx; try discriminate;
+      inversion Hx; subst; split; reflexivity. }
+  set (s' := reopen s) in *.
+  assert (Hgen : forall e o uo, get_ent w (uid e) (ents s') = Some e -> get_ent w uo (ents s') = Some o -> uid e <> uo ->
+            fam e = FDC -> cache e = None -> md e = None -> dnames s' ua ub e ->
+            dget (key_of (other (rol e))) [(KA, VU ua); (KB, VU ub)] = Some (VU uo) ->
+            exists p s1, partner s' e = (Some p, s1) /\ wsp p = w /\ uid p = uo).
+  { intros e o uo Ge Go Hneo Fe Ce Me [(fd & Ef & Hg) _] Hk.
+    destruct (get_ent_some _ _ _ _ Ge) as [We _]. destruct (get_ent_some _ _ _ _ Go) as [Wo Uo].
+    unfold partner. rewrite Fe. simpl is_dc. cbv iota. rewrite Ce.
+    destruct (dc_md s' e) as [m s1] eqn:Em.
+    assert (Gs : get_ent (wsp e) (uid e) (ents s') = Some e) by (rewrite We; exact Ge).
+    destruct (dc_md_spec s' e m s1 Gs ltac:(intros l E; congruence) Em) as (N1 & F1 & H1 & O1 & Hm).
+    destruct m as [lm|]; [|destruct Hm as (_ & _ & Ef0); congruence].
+    destruct Hm as (G1' & L1 & Hor). destruct Hor as [Emd|Hld]; [congruence|]. destruct Hld as (_ & fd0 & Ef0 & Ex).
+    assert (Efd : fd0 = fd) by congruence.
+    assert (Hd : dgood ua ub (hget lm (heap s1))) by (apply (expand_good (wheap s1)); rewrite Ex, Efd; exact Hg).
+    assert (Hkey : dget (key_of (other (rol e))) (hget lm (heap s1)) = Some (VU uo)).
+    { destruct Hd as [A B]. destruct (rol e); simpl in *; [rewrite B | rewrite A]; inversion Hk; reflexivity. }
+    rewrite Hkey. rewrite We.
+    assert (Go1 : get_ent w uo (ents s1) = Some o) by (rewrite O1; [exact Go | right; exact Hneo]).
+    rewrite Go1. eexists _, _. split; [reflexivity|]. split; assumption. }
+  destruct He as [He|He].
+  - assert (e1 = ea) by congruence. subst e1. destruct (Hc ea (or_introl G1)) as [C M].
+    destruct (Hgen ea eb ub ltac:(rewrite Ua; exact G1) G2 ltac:(rewrite Ua; exact Hne) Fa C M Na ltac:(rewrite Ra; reflexivity)) as (p & s1 & P & Wp & Up).
+    exists p, s1. split; [exact P|]. split; [exact Wp|]. left. split; assumption.
+  - assert (e1 = eb) by congruence. subst e1. destruct (Hc eb (or_intror G2)) as [C M].
+    destruct (Hgen eb ea ua ltac:(rewrite Ub; exact G2) G1 ltac:(rewrite Ub; intros E; apply Hne; symmetry; exact E) Fb C M Nb ltac:(rewrite Rb; reflexivity)) as (p & s1 & P & Wp & Up).
+    exists p, s1. split; [exact P|]. split; [exact Wp|]. right. split; assumption.
+Qed.
+
+(* non-vacuity for electrodes: create potential + current electrodes, link: the invariant holds; an edit and a CRS keep it *)
+Definition h_dc : list op := [OCreate false FDC RA true 5 []; OCreate false FDC RB true 5 []; OLink 0 1].
+
+Example dinv_nonvacuous :
+  exists s, run s0 h_dc = Ok s /\ dinv s false 1%N 2%N
+    /\ dinv (fold_left (dstep false 1%N 2%N) [DEdit true 24 3%Z; DCrs false 7%Z 8%Z; DReopen; DLink false] s) false 1%N 2%N.
+Proof.
+  assert (H : exists s, run s0 h_dc = Ok s /\ dinv s false 1%N 2%N).
+  { eexists. split; [vm_compute; reflexivity|].
+    eexists _, _. split; [vm_compute; reflexivity|]. split; [vm_compute; reflexivity|]. split; [discriminate|].
+    split; [reflexivity|]. split; [reflexivity|]. split; [reflexivity|]. split; [reflexivity|].
+    split; (split; [eexists; split; [vm_compute; reflexivity | split; vm_compute; reflexivity]
+                   | intros l E; vm_compute in E; inversion E; subst; split; [reflexivity | split; vm_compute; reflexivity]]). }
+  destruct H as (s & Hr & Hi). exists s. split; [exact Hr|]. split; [exact Hi|].
+  apply dc_link_persists; [exact Hi|]. repeat constructor; discriminate.
+Qed.
